@@ -1,5 +1,6 @@
 """C15 -- tilt-stack operations are lossless selections/permutations of tilt images"""
 from .common import *
+from . import C11 as _c11
 
 TITLE = "Tilt-stack operations are lossless selections/permutations of tilt images"
 EXPLANATION = (
@@ -351,6 +352,8 @@ def _obligations():
         Obligation("O15.1", "crop: centred windows on the height axis 1 / width axis 2, protocol", o151, floor=7),
         Obligation("O15.2", "sort (ascending argsort, axis 0), remove (np.delete axis 0, 1-based option, no in-place), bin (1,b,b)", o152, floor=20),
         Obligation("O15.3", "even/odd split by parity over every index; flips reverse one axis each; merge on axis 0 ascending", o153, floor=25),
+        Obligation("O15.6", "the file sink: cryomap.write hands the values on unchanged apart from the requested astype -- the same conversion "
+                            "correct_order applies to the returned array (shared with C11)", _c11.o111, floor=30),
         Obligation("O15.5", "TiltStack: xyz arrays permuted (2,1,0), files unpermuted, correct_order iff orders differ, write_out", o155, floor=8),
     ]
 
